@@ -471,6 +471,60 @@ static void fam_copy(void)
 			mc_restart_worker();
 		}
 	}
+	/* API-built nodes that carry serializer data: retained text (new_double_s) and a per-node format */
+	cur_what = "deep-copy-of-serializer-data";
+	for (int variant = 0; variant < 8; variant++)
+	{
+		TXL = (size_t)snprintf((char *)TXT, 64, "serializer-data variant %d", variant);
+		if (!mc_case_begin())
+			continue;
+		long live0 = vf_live();
+		struct json_object *o = json_object_new_array();
+		struct json_object *d1 = json_object_new_double_s(1.5, "1.50"), *d2 = json_object_new_double(2.25), *d3 = json_object_new_double_s(1e2, "1e2");
+		if (variant & 4)
+			json_object_set_serializer(d2, json_object_double_to_json_string, (void *)"%.3f", NULL);
+		if (variant & 1)
+		{
+			struct json_object *in = json_object_new_object();
+			json_object_object_add(in, "x", d1);
+			json_object_object_add(in, "y", d2);
+			json_object_array_add(o, in);
+		}
+		else
+		{
+			json_object_array_add(o, d1);
+			json_object_array_add(o, d2);
+		}
+		json_object_array_add(o, d3);
+		if (variant & 2)
+			json_object_set_double(d3, 7.5); /* documented: setting a value drops the retained text */
+		const char *t = json_object_to_json_string_ext(o, JSON_C_TO_STRING_PLAIN);
+		char want[64];
+		snprintf(want, sizeof want, (variant & 1) ? "[{\"x\":1.50,\"y\":%s},%s]" : "[1.50,%s,%s]", (variant & 4) ? "2.250" : "2.25", (variant & 2) ? "7.5" : "1e2");
+		if (strcmp(t, want))
+			mc_violation("serializer-data-not-used", "source serializes as %s, expected %s", t, want);
+		if (variant & 4)
+		{
+			/* documented: a custom serializer needs a custom shallow-copy function; the default one must fail cleanly */
+			struct json_object *c = NULL;
+			long live1 = vf_live();
+			int rc = json_object_deep_copy(o, &c, NULL);
+			if (rc != -1 || c != NULL)
+				mc_violation("copy-of-custom-serializer-not-refused", "deep copy of a node with a custom serializer returned %d, dst %s", rc, c ? "set" : "NULL");
+			if (c)
+				json_object_put(c);
+			if (vf_live() != live1)
+				mc_violation("leak", "%ld blocks leaked by the refused deep copy", vf_live() - live1);
+		}
+		else
+			check_copy_of(o, 1);
+		json_object_put(o);
+		if (vf_live() != live0)
+		{
+			mc_violation("leak", "%ld blocks leaked", vf_live() - live0);
+			mc_restart_worker();
+		}
+	}
 	/* argument errors */
 	if (mc_case_begin())
 	{
